@@ -630,6 +630,21 @@ func checkTags(e *Env, p *load.Program, pk *packages.Package) {
 					}
 				}
 			}
+			// `omitempty` (encoding/json, yaml.v2): the marshaller leaves the key out when the field has its zero value. For a
+			// numeric field whose zero is a meaningful value - the action 0 is kill_thread, argument 0, operand 0 - the
+			// document then says nothing where the in-memory policy says 0, and what the configuration path makes of the
+			// missing key is a default (`default:"…"` tags, an InitDefaults hook), not the value (seed C14h)
+			if bt, isBasic := f.Type().Underlying().(*types.Basic); isBasic && bt.Info()&(types.IsInteger|types.IsFloat|types.IsBoolean) != 0 {
+				for _, tk := range []string{"json", "yaml"} {
+					if full, _ := reflect.StructTag(tag).Lookup(tk); strings.Contains(full, ",") {
+						for _, opt := range strings.Split(full, ",")[1:] {
+							if opt == "omitempty" {
+								r.Bad("E4.tags", key+"/"+tk+"-omitempty", p.Pos(f.Pos()), fmt.Sprintf("field %s (%s) carries `omitempty` in its %s tag: the value 0 - a legal value of this field - is not written, so a policy marshalled and read back through the configuration path gets whatever the path defaults a missing key to", key, f.Type().String(), tk))
+							}
+						}
+					}
+				}
+			}
 			r.Check(cfg == js && cfg == ym, "E4.tags", key, p.Pos(f.Pos()),
 				fmt.Sprintf("config=json=yaml=%q", cfg),
 				fmt.Sprintf("field %s is read from config key %q but written as json %q / yaml %q: a marshalled policy read back through the config path loses this field", key, cfg, js, ym))
@@ -930,6 +945,12 @@ func wholeFileBytes(v ssa.Value, depth int) string {
 	case flow.CalleeIs(c, "io", "ReadAll"), flow.CalleeIs(c, "io/ioutil", "ReadAll"):
 		rd := strip(c.Call.Args[0])
 		for i := 0; i < 3; i++ {
+			// the whole standard input (`-policy -`)
+			if ld, isLoad := rd.(*ssa.UnOp); isLoad && ld.Op == token.MUL {
+				if g, isG := ld.X.(*ssa.Global); isG && g.Pkg != nil && g.Pkg.Pkg.Path() == "os" && g.Name() == "Stdin" {
+					return ""
+				}
+			}
 			rc, ok := rd.(*ssa.Call)
 			if !ok {
 				return fmt.Sprintf("ReadAll of %T", rd)
